@@ -83,7 +83,13 @@ func Harness_C01_store_save() {
 	uGen.Init(1, []byte("0123456789abcdef"))
 	seq := a.topicSeq + 1
 	msg := &types.Message{SeqId: seq, Topic: "grpAAAAAAAAAAB", From: types.Uid(7).String(), Content: "x"}
-	err, _ := Messages.Save(msg, nil, verifNondetBool("readBySender"))
+	// the message may list an attachment (one more adapter call: linking)
+	var atts []string
+	if verifNondetBool("withAttachment") {
+		mediaHandler = verifMediaFake{}
+		atts = []string{"/v0/file/s/3"}
+	}
+	err, _ := Messages.Save(msg, atts, verifNondetBool("readBySender"))
 	// final state (also a crash point)
 	for _, s := range a.rows {
 		verifAssert(s <= a.topicSeq, "topic-row-covers-every-message-row-at-every-write-boundary")
